@@ -236,6 +236,9 @@ def run(ctx):
     nw = common.NCPU
     jobs = [(k, ntrees // nw, ctx.scale(10, 16), ctx.seed, ctx.scale(40, 300), 1) for k in range(nw)]
     ctx.pmap(worker, jobs)
+    import deep
+    ctx.pmap(deep.deep_worker, [("visit", k, 1 if ctx.quick else 6, ctx.seed) for k in range(common.NCPU)])
+    ctx.require("runs_over_a_tree_deeper_than_the_open_files_limit", 8)
     for key in ("runs_min_gt_max", "runs_with_error:loop", "runs_with_error:unreadable", "runs_with_error:missing",
                 "trees_with_links", "binary_runs", "runs_with_overridden_follow_option", "runs_with_repeated_depth_option"):
         ctx.require(key, 3)
